@@ -12,7 +12,10 @@ Unit 4  psd/patterns.py (`Patt` / `Pat2` / `Pat3`): Model/PayloadPatterns.lean, 
 
 Unit 5  psd/linked_layer.py (`lnkD` / `lnk2` / `lnk3` / `lnkE`): Model/PayloadLinked.lean, Lemmas/PayloadLinked.lean.
 
-Reading guide (units 2-5)
+Unit 6  the descriptor-wrapping payloads of psd/tagged_blocks.py (`SoLd` / `SoLE`, `PlLd` / `plLd`, `TySh`):
+        Model/PayloadDescWrap.lean, Lemmas/PayloadDescWrap.lean.
+
+Reading guide (units 2-6)
 * every class is a `PCodec`: `c.enc v` is `v.tobytes(...)` (or `struct.error`), `c.dec` the reader at a cursor,
   `c.consumed v` the number of written bytes the reader consumes (some writers end with `write_padding`; no payload
   reader consumes that filler), `c.encW` the bytes with the count `write` returns.
@@ -39,6 +42,7 @@ import PsdVerif.Lemmas.PayloadSimple
 import PsdVerif.Lemmas.PayloadEffects
 import PsdVerif.Lemmas.PayloadPatterns
 import PsdVerif.Lemmas.PayloadLinked
+import PsdVerif.Lemmas.PayloadDescWrap
 import PsdVerif.Lemmas.PayloadSamples
 import PsdVerif.Model.PayloadTables
 
@@ -752,5 +756,69 @@ theorem linked_conditions_tied : Generated.Payload.linkedConditions = Tables.lin
 theorem unit5_calls_tied : Generated.Payload.unit5Calls = Tables.unit5Calls := by decide +kernel
 
 end unit5
+
+/-! ## unit 6: SmartObjectLayerData, PlacedLayerData, TypeToolObjectSetting -/
+
+section unit6
+open PCodec
+
+/-- kind + version + a descriptor block (composed with Props/C01Descriptor.lean); the reader stops before the final filler -/
+theorem smart_object_layer_data_roundtrip (tb : Descriptor.Tables) (pad : Nat) : RoundTrip (SmartObjectLayerData.codec tb pad) :=
+  roundTrip_of (SmartObjectLayerData.rt tb pad)
+theorem smart_object_layer_data_rewrite_identical (tb : Descriptor.Tables) (pad : Nat) :
+    RewriteIdentical (SmartObjectLayerData.codec tb pad) := rewriteIdentical_of (SmartObjectLayerData.rt tb pad).atEnd
+theorem smart_object_layer_data_written_is_length (tb : Descriptor.Tables) (pad : Nat) :
+    WrittenIsLength (SmartObjectLayerData.codec tb pad) := writtenIsLength_of (SmartObjectLayerData.count tb pad)
+theorem tagged_block_smart_object_layer_data (tb : Descriptor.Tables) (pad : Nat) :
+    TaggedBlockPayload (SmartObjectLayerData.codec tb (innerPad pad)) := taggedBlockPayload_of (SmartObjectLayerData.rt tb _).atEnd
+
+/-- uuid, page numbers, layer type, the 8 doubles of the transform, the warp `DescriptorBlock2` -/
+theorem placed_layer_data_roundtrip (tb : Descriptor.Tables) (pad : Nat) : RoundTrip (PlacedLayerData.codec tb pad) :=
+  roundTrip_of (PlacedLayerData.rt tb pad)
+theorem placed_layer_data_rewrite_identical (tb : Descriptor.Tables) (pad : Nat) : RewriteIdentical (PlacedLayerData.codec tb pad) :=
+  rewriteIdentical_of (PlacedLayerData.rt tb pad).atEnd
+theorem placed_layer_data_written_is_length (tb : Descriptor.Tables) (pad : Nat) : WrittenIsLength (PlacedLayerData.codec tb pad) :=
+  writtenIsLength_of (PlacedLayerData.count tb pad)
+theorem tagged_block_placed_layer_data (tb : Descriptor.Tables) (pad : Nat) :
+    TaggedBlockPayload (PlacedLayerData.codec tb (innerPad pad)) := taggedBlockPayload_of (PlacedLayerData.rt tb _).atEnd
+
+/-- version, the 6 doubles of the transform, text version + text descriptor, warp version + warp descriptor, the bounding
+box. (The in-place parse of the `EngineData` raw value by the reader is not modelled: the value stays the bytes; C18.) -/
+theorem type_tool_object_setting_roundtrip (tb : Descriptor.Tables) (pad : Nat) : RoundTrip (TypeToolObjectSetting.codec tb pad) :=
+  roundTrip_of (TypeToolObjectSetting.rt tb pad)
+theorem type_tool_object_setting_rewrite_identical (tb : Descriptor.Tables) (pad : Nat) :
+    RewriteIdentical (TypeToolObjectSetting.codec tb pad) := rewriteIdentical_of (TypeToolObjectSetting.rt tb pad).atEnd
+theorem type_tool_object_setting_written_is_length (tb : Descriptor.Tables) (pad : Nat) :
+    WrittenIsLength (TypeToolObjectSetting.codec tb pad) := writtenIsLength_of (TypeToolObjectSetting.count tb pad)
+theorem tagged_block_type_tool_object_setting (tb : Descriptor.Tables) (pad : Nat) :
+    TaggedBlockPayload (TypeToolObjectSetting.codec tb (innerPad pad)) := taggedBlockPayload_of (TypeToolObjectSetting.rt tb _).atEnd
+
+theorem unit6_samples_wf :
+    (SmartObjectLayerData.codec Descriptor.realTables 4).WF Samples.smartObject ∧
+    (SmartObjectLayerData.codec Descriptor.realTables 4).Fits Samples.smartObject ∧
+    (PlacedLayerData.codec Descriptor.realTables 4).WF Samples.placedLayer ∧ (PlacedLayerData.codec Descriptor.realTables 4).Fits Samples.placedLayer ∧
+    (TypeToolObjectSetting.codec Descriptor.realTables 4).WF Samples.typeTool ∧
+    (TypeToolObjectSetting.codec Descriptor.realTables 4).Fits Samples.typeTool := by decide +kernel
+
+example : ∃ bs, (TypeToolObjectSetting.codec Descriptor.realTables 4).enc Samples.typeTool = .ok bs ∧ bs.length % 4 = 0 ∧
+    ((TypeToolObjectSetting.codec Descriptor.realTables 4).dec bs 0).map (·.2) =
+      .ok ((TypeToolObjectSetting.codec Descriptor.realTables 4).consumed Samples.typeTool) := by
+  have henc : (TypeToolObjectSetting.codec Descriptor.realTables 4).enc Samples.typeTool =
+      .ok ((TypeToolObjectSetting.codec Descriptor.realTables 4).encT Samples.typeTool) := if_pos unit6_samples_wf.2.2.2.2.2
+  refine ⟨_, henc, by decide +kernel, ?_⟩
+  have h := type_tool_object_setting_roundtrip Descriptor.realTables 4 _ unit6_samples_wf.2.2.2.2.1 _ [] [] henc
+  simp only [List.nil_append, List.append_nil, List.length_nil, Nat.zero_add] at h
+  rw [h]; rfl
+
+theorem unit6_tied :
+    Generated.Payload.smartObjectKinds = Tables.smartObjectKinds ∧ Generated.Payload.smartObjectVersions = Tables.smartObjectVersions ∧
+      Generated.Payload.placedVersions = Tables.placedVersions ∧ Generated.Payload.placedLayerTypes = Tables.placedLayerTypes ∧
+      Generated.Payload.typeToolTextVersions = Tables.typeToolTextVersions ∧
+      Generated.Payload.typeToolWarpVersions = Tables.typeToolWarpVersions ∧ Generated.Payload.unit6Registry = Tables.unit6Registry := by
+  decide +kernel
+
+theorem unit6_calls_tied : Generated.Payload.unit6Calls = Tables.unit6Calls := by decide +kernel
+
+end unit6
 
 end PsdVerif.C01Payload
